@@ -183,24 +183,44 @@ theorem C16_roundtrip_unix_unnamed :
   subst hlen
   simp [initUnix, storageUnix, fromPathname]
 
-/-- The storage handed to the kernel is exactly the family's structure:
-16 bytes (`sockaddr_in`), 28 bytes (`sockaddr_in6`), 110 bytes (`sockaddr_un`). -/
+/-- The pointer/length pair handed to the kernel: the IP storages are exactly the family's
+structure (16 bytes `sockaddr_in`, 28 bytes `sockaddr_in6`); a Unix address is stored in a
+110-byte `sockaddr_un` and passed with the length OF THAT ADDRESS (family + path + NUL,
+family + `\0name`, or the bare family), which lies inside the structure and is one of the
+lengths the kernel itself reports for it (`kernelLens`). -/
 theorem C16_ptr_len (a : Addr) (h : WF a) :
     match a with
     | .v4 ip port => (storageV4 ip port).length = 16
     | .v6 ip port flow scope => (storageV6 ip port flow scope).length = 28
-    | u => (storageUnix u).length = 110 := by
+    | u => (storageUnix u).length = 110 ∧ ptrLenUnix u ≤ 110 ∧ ptrLenUnix u ∈ kernelLens u := by
   cases a with
   | v4 ip port => obtain ⟨hl, _⟩ := h; simp [storageV4, le16, be16, zeros, hl]
   | v6 ip port flow scope =>
     obtain ⟨hl, _⟩ := h; simp [storageV6, le16, be16, le32, hl]
   | path p =>
     obtain ⟨_, h2, _⟩ := h
-    simp [storageUnix, le16, zeros]; omega
+    simp [storageUnix, le16, zeros, ptrLenUnix, kernelLens]; omega
   | abstr n =>
     have h2 : n.length ≤ 107 := h
-    simp [storageUnix, le16, zeros]; omega
-  | unnamed => simp [storageUnix, le16, zeros]
+    simp [storageUnix, le16, zeros, ptrLenUnix, kernelLens]; omega
+  | unnamed => simp [storageUnix, le16, zeros, ptrLenUnix, kernelLens]
+
+/-- What the kernel sees for a Unix address is the address itself: reading the storage back with
+the length `as_ptr` passes yields the same address (an abstract name is NOT padded with NULs, the
+unnamed address stays unnamed). Before the `fix:` commit 372ec6f the length was always 110 and an
+abstract name `n` was seen as `n ++ 0…0` (`example` below). -/
+theorem C16_kernel_sees_same_unix_address (a : Addr) (h : WF a)
+    (hu : match a with | .path _ | .abstr _ | .unnamed => True | _ => False) :
+    initUnix (storageUnix a) (ptrLenUnix a) = a := by
+  cases a with
+  | v4 _ _ => simp at hu
+  | v6 _ _ _ _ => simp at hu
+  | path p => exact C16_roundtrip_unix_path p h (ptrLenUnix (.path p)) (by simp [kernelLens, ptrLenUnix])
+  | abstr n => exact C16_roundtrip_unix_abstract n h (ptrLenUnix (.abstr n)) (by simp [kernelLens, ptrLenUnix])
+  | unnamed => exact C16_roundtrip_unix_unnamed (ptrLenUnix .unnamed) (by simp [kernelLens, ptrLenUnix])
+
+/-- The repaired defect: with the old length 110 the kernel saw the abstract name padded. -/
+example : initUnix (storageUnix (.abstr [97, 98])) 110 ≠ .abstr [97, 98] := by decide
 
 /-- Reading back a Unix address depends only on the bytes the kernel reported:
 whatever lies beyond `len` in the caller's buffer is ignored. -/
